@@ -1150,3 +1150,169 @@ Definition odp_frame (pint : int_oracle) (skip : list str) (f : xml) : frame :=
    option_map (odp_table pint skip) (find TABLE_TABLE f)).
 Definition odp_page_tables (pint : int_oracle) (skip : list str) (page : xml) : list (list (list str)) :=
   slide_tables (map (odp_frame pint skip) (slide_frames page)).
+
+(* ------------------------------------------------------------------ position keys, modelled
+   (extension round: the rank oracle of the deck model is replaced by models of the two parsers) *)
+From Coq Require Import Floats.SpecFloat.
+
+(* sorted(l, key=...) for an arbitrary "not greater" test on the elements: stable insertion sort *)
+Fixpoint insert_le {A} (le : A -> A -> bool) (x : A) (l : list A) : list A :=
+  match l with
+  | [] => [x]
+  | y :: r => if le x y then x :: y :: r else y :: insert_le le x r
+  end.
+Fixpoint stable_sort_le {A} (le : A -> A -> bool) (l : list A) : list A :=
+  match l with [] => [] | x :: r => insert_le le x (stable_sort_le le r) end.
+Fixpoint sorted_le {A} (le : A -> A -> bool) (l : list A) : bool :=
+  match l with
+  | a :: r => match r with b :: _ => le a b && sorted_le le r | [] => true end
+  | [] => true
+  end.
+
+(* --- ODP: _parse_odf_length_to_px, IEEE-754 binary64 via Coq's SpecFloat (prec 53, emax 1024).
+   _ODF_LENGTH_RE = ^\s*(\d+(?:\.\d+)?)\s*([a-zA-Z]+)?\s*$  as a scanner (ASCII digits assumed);
+   float("ddd.fff") is the correctly rounded quotient ddd fff / 10^k (exact for < 2^53 digits, k <= 22) *)
+Definition fprec : Z := 53.
+Definition femax : Z := 1024.
+Definition f_of_Z (z : Z) : spec_float := binary_normalize fprec femax z 0 false.
+(* float of the decimal literal  digits / 10^k *)
+Definition f_dec (digits : Z) (k : nat) : spec_float := SFdiv fprec femax (f_of_Z digits) (f_of_Z (10 ^ Z.of_nat k)).
+Definition f_mul := SFmul fprec femax.
+Definition f_div := SFdiv fprec femax.
+Definition f_zero : spec_float := S754_zero false.
+Definition f_leb (a b : spec_float) : bool :=
+  match SFcompare a b with Some Lt | Some Eq => true | _ => false end.
+Definition f_eqb (a b : spec_float) : bool := match SFcompare a b with Some Eq => true | _ => false end.
+Definition f_ltb (a b : spec_float) : bool := match SFcompare a b with Some Lt => true | _ => false end.
+
+(* the regex as a scanner: Some (digits, number of decimals, unit) or None (no match) *)
+Definition odf_length_scan (is_ws : N -> bool) (x : str) : option (Z * nat * str) :=
+  let x1 := dropWhile is_ws x in
+  let ni := span_len is_digit x1 in
+  match ni with
+  | O => None
+  | _ =>
+      let ip := firstn ni x1 in
+      let r1 := skipn ni x1 in
+      let '(fp, r2) :=
+        match r1 with
+        | d :: r' => if (d =? 46) && Nat.ltb 0 (span_len is_digit r')
+                     then (firstn (span_len is_digit r') r', skipn (span_len is_digit r') r') else ([], r1)
+        | [] => ([], r1)
+        end in
+      let r3 := dropWhile is_ws r2 in
+      let nu := span_len is_alpha r3 in
+      let unit := firstn nu r3 in
+      let r4 := dropWhile is_ws (skipn nu r3) in
+      (* \s* between number and unit may also have consumed nothing: when the unit is absent the two
+         \s* runs are adjacent, which the scanner treats the same way *)
+      if is_nil r4 then Some (dec_val 0 (ip ++ fp), length fp, unit) else None
+  end.
+
+(* the arithmetic after the match: number = float(group 1), unit = (group 2 or "px").lower() *)
+Definition odf_px_value (digits : Z) (k : nat) (unit : str) : spec_float :=
+  let number := f_dec digits k in
+  let u := if is_nil unit then s "px" else ascii_lower unit in
+  if str_eqb u (s "px") then number
+  else if str_eqb u (s "in") then f_mul number (f_of_Z 96)
+  else if str_eqb u (s "cm") then f_mul (f_div number (f_dec 254 2)) (f_of_Z 96)
+  else if str_eqb u (s "mm") then f_mul (f_div number (f_dec 254 1)) (f_of_Z 96)
+  else if str_eqb u (s "pt") then f_mul (f_div number (f_of_Z 72)) (f_of_Z 96)
+  else if str_eqb u (s "pc") then f_mul (f_div (f_mul number (f_of_Z 12)) (f_of_Z 72)) (f_of_Z 96)
+  else number.
+
+Definition odf_length_px (is_ws : N -> bool) (value : str) : spec_float :=
+  if is_nil value then f_zero else
+  match odf_length_scan is_ws value with
+  | None => f_zero
+  | Some (digits, k, unit) => odf_px_value digits k unit
+  end.
+
+Definition fkey := (spec_float * spec_float)%type.
+(* how list.sort orders the (y, x) key tuples: first components compared, the second decides on == *)
+Definition fkey_le (a b : fkey) : bool :=
+  f_ltb (fst a) (fst b) || (f_eqb (fst a) (fst b) && f_leb (snd a) (snd b)).
+
+Definition SVG_X := s "svg:x".
+Definition SVG_Y := s "svg:y".
+Definition odp_frame_key (is_ws : N -> bool) (f : xml) : fkey :=
+  (odf_length_px is_ws (xget SVG_Y [] f), odf_length_px is_ws (xget SVG_X [] f)).
+(* _extract_slide restricted to tables: frames through groups, sorted by position, tables collected *)
+Definition odp_page_tables_f (is_ws : N -> bool) (pint : int_oracle) (skip : list str) (page : xml) : list (list (list str)) :=
+  flat_map (fun f => match option_map (odp_table pint skip) (find TABLE_TABLE f) with
+                     | Some t => if is_nil t then [] else [t] | None => [] end)
+           (stable_sort_le (fun a b => fkey_le (odp_frame_key is_ws a) (odp_frame_key is_ws b)) (slide_frames page)).
+
+(* --- PPTX: _get_shape_position (ints) and the shapes of a slide *)
+Definition P_SP := s "p:sp".
+Definition P_PIC := s "p:pic".
+Definition P_GRPSP := s "p:grpSp".
+Definition P_SPPR := s "p:spPr".
+Definition A_XFRM := s "a:xfrm".
+Definition P_XFRM := s "p:xfrm".
+Definition A_OFF := s "a:off".
+Definition P_NVSPPR := s "p:nvSpPr".
+Definition P_NVPR := s "p:nvPr".
+Definition P_PH := s "p:ph".
+Definition PPTX_TITLE_TYPES : list str := [s "title"; s "ctrTitle"].
+Definition PPTX_BODY_TYPES : list str := [s "body"; s "subTitle"; s "obj"; s "tbl"].
+Definition PPTX_FOOTER_TYPES : list str := [s "ftr"].
+Definition zkey := (Z * Z)%type.
+Definition zkey_le (a b : zkey) : bool := (fst a <? fst b)%Z || ((fst a =? fst b)%Z && (snd a <=? snd b)%Z).
+Definition PPTX_LAST : zkey := (999999999, 999999999)%Z.
+
+Definition first_iter (t : str) (x : xml) : option xml := hd_error (iter_tag t x).
+Definition or_else {A} (a b : option A) : option A := match a with Some _ => a | None => b end.
+
+(* pint = int(); a failing int() lands in the blanket `except Exception` -> PPTX_LAST *)
+Definition pptx_shape_position (pint : int_oracle) (sh : xml) : zkey :=
+  let sp_pr := match or_else (first_iter P_SPPR sh) (first_iter A_XFRM sh) with Some e => e | None => sh end in
+  let xfrm := or_else (or_else (find A_XFRM sp_pr) (find P_XFRM sp_pr)) (or_else (first_iter A_XFRM sh) (first_iter P_XFRM sh)) in
+  let explicit :=
+    match xfrm with
+    | Some xf => match find A_OFF xf with
+                 | Some off => Some (pint (xget (s "x") (s "0") off), pint (xget (s "y") (s "0") off))
+                 | None => None end
+    | None => None
+    end in
+  match explicit with
+  | Some (Some x, Some y) => (y, x)
+  | Some _ => PPTX_LAST
+  | None =>
+      match find P_NVSPPR sh with
+      | Some nv =>
+          match find P_NVPR nv with
+          | Some nvpr =>
+              match find P_PH nvpr with
+              | Some ph =>
+                  let ty := xget (s "type") [] ph in
+                  let idx := xget (s "idx") [] ph in
+                  if mem_str ty PPTX_TITLE_TYPES then (0, 0)%Z
+                  else if mem_str ty PPTX_BODY_TYPES || (is_nil ty && negb (is_nil idx)) then
+                    (if forallb is_digit idx && negb (is_nil idx)
+                     then match pint idx with Some n => ((1 + n)%Z, 0%Z) | None => PPTX_LAST end
+                     else (1, 0)%Z)
+                  else if mem_str ty PPTX_FOOTER_TYPES || str_eqb ty (s "sldNum") then (999999998, 0)%Z
+                  else PPTX_LAST
+              | None => PPTX_LAST end
+          | None => PPTX_LAST end
+      | None => PPTX_LAST
+      end
+  end.
+
+Definition is_pptx_shape (x : xml) : bool := tag_is P_SP x || tag_is P_PIC x || tag_is P_GRAPHICFRAME x.
+(* sp_tree.iter(): every descendant, so shapes inside (nested) p:grpSp groups are seen too *)
+Definition pptx_slide_shapes (sp_tree : xml) : list xml := filter is_pptx_shape (iter sp_tree).
+Definition pptx_slide_tables (is_ws : N -> bool) (pint : int_oracle) (sp_tree : xml) : list (list (list str)) :=
+  flat_map (fun sh => if tag_is P_GRAPHICFRAME sh
+                      then match pptx_table is_ws sh with Some t => if is_nil t then [] else [t] | None => [] end
+                      else [])
+           (stable_sort_le (fun a b => zkey_le (pptx_shape_position pint a) (pptx_shape_position pint b))
+                           (pptx_slide_shapes sp_tree)).
+
+(* a table frame with an explicit position (p:xfrm / a:off), as PowerPoint writes it *)
+Definition pptx_r_frame_at (xs ys : str) (g : fgrid) : xml :=
+  match pptx_r_frame g with
+  | Elem t a x cs l => Elem t a x (E P_XFRM [Elem A_OFF [(s "x", xs); (s "y", ys)] [] [] []] :: cs) l
+  end.
+Definition P_SPTREE := s "p:spTree".
